@@ -206,6 +206,12 @@ def gen_world(rng, nsessions=None, maxops=None, disciplined=True, schema_changes
             elif r < 0.90 and pending_del and raw_docnums and not disciplined:
                 k = rng.choice(sorted(pending_del))
                 ops.append(["undelkey", k])
+                pending_del.discard(k)
+                others = [x for x in committed if x not in pending_del and x != k]
+                if others and rng.random() < 0.7:
+                    k2 = rng.choice(others)
+                    ops.append(["delkey", k2])
+                    pending_del.add(k2)
             elif groups and r < 0.97:
                 g = []
                 for _ in range(rng.choice([2, 3, 4])):
@@ -309,6 +315,61 @@ def gen_boundary_world(rng):
         last.insert(0, ["delkey", rng.randrange(len(docs) - len(last))])
     sessions.append([last, ["commit", "small"]])
     return {"fields": ["sid", "txt"], "docs": docs, "sessions": sessions, "disciplined": True}
+
+
+def gen_topk_world(rng):
+    """Posting lists of several blocks whose best postings belong to deleted documents: most documents
+    carry the term once, a few often (hot, mostly deleted later) or a few times (warm), so that a limited
+    scored search skips blocks by quality and lands on blocks that open with a deleted document."""
+    n = rng.choice([12, 20, 36, 60])
+    nseg = rng.choice([1, 1, 2, 3])
+    hot = set(rng.sample(range(n), max(2, n // 7)))
+    warm = set(rng.sample(range(n), max(2, n // 8))) - hot
+    docs = []
+    for i in range(n):
+        k = 8 if i in hot else (3 if i in warm else 1)
+        docs.append({"sid": i, "f": {"sid": "s%d" % i, "txt": " ".join(["aa"] * k + ["bb"] * (10 - k))}})
+    bounds = sorted(rng.sample(range(1, n), nseg - 1)) if nseg > 1 else []
+    sessions, prev = [], 0
+    for b in bounds + [n]:
+        sessions.append([[["add", i] for i in range(prev, b)], ["commit", "nomerge"]])
+        prev = b
+    dels = [i for i in sorted(hot) if rng.random() < 0.8] + [i for i in range(n) if i not in hot and rng.random() < 0.1]
+    sessions.append([[["delkey", i] for i in dels], ["commit", "nomerge"]])
+    if rng.random() < 0.3:
+        sessions.append([[["add", len(docs)]], ["commit", rng.choice(["nomerge", "small"])]])
+        docs.append({"sid": len(docs), "f": {"sid": "s%d" % len(docs), "txt": "aa bb"}})
+    return {"fields": ["sid", "txt"], "docs": docs, "sessions": sessions, "disciplined": True}
+
+
+def gen_refresh_world(rng):
+    """Commits that change a segment's deleted set without (always) changing its size: un-delete one
+    document and delete another one of the same segment, for a long-lived refreshed searcher."""
+    n = rng.choice([4, 6, 9])
+    docs = [{"sid": i, "f": {"sid": "s%d" % i, "txt": rng.choice(WORDS) + " " + rng.choice(WORDS)}} for i in range(n)]
+    cut = rng.choice([n, n, n // 2])
+    sessions = [[[["add", i] for i in range(cut)], ["commit", "nomerge"]]]
+    if cut < n:
+        sessions.append([[["add", i] for i in range(cut, n)], ["commit", "nomerge"]])
+    dead = set()
+    for _ in range(rng.choice([2, 3, 5])):
+        ops = []
+        live = [i for i in range(n) if i not in dead]
+        if dead and rng.random() < 0.8:
+            a = rng.choice(sorted(dead))
+            ops.append(["undelkey", a])
+            dead.discard(a)
+            if live and rng.random() < 0.85:
+                b = rng.choice(live)
+                ops.append(["delkey", b])
+                dead.add(b)
+        elif live:
+            b = rng.choice(live)
+            ops.append(["delkey", b])
+            dead.add(b)
+        rng.shuffle(ops)
+        sessions.append([ops, ["commit", rng.choice(["nomerge", "nomerge", "small"])]])
+    return {"fields": ["sid", "txt"], "docs": docs, "sessions": sessions, "disciplined": False}
 
 
 def _ever_added(name, sessions):
@@ -679,6 +740,38 @@ def dump_reader(r, schema, probes=()):
     out["stats"] = stats
     out["gposts"] = gposts
     out["field_length"] = dict((n, r.field_length(n)) for n in names if schema[n].scorable)
+    # the reader's own (top-level) column reader, row by row, against the per-segment rows
+    topcol = []
+    if live:
+        for name in names:
+            fobj = schema[name]
+            if not fobj.column_type:
+                continue
+            try:
+                cr = r.column_reader(name, translate=False)
+            except Exception as e:  # noqa
+                topcol.append((name, None, None, "column_reader raised %s" % type(e).__name__))
+                continue
+            dflt = fobj.column_type.default_value()
+            for dn in live:
+                want = colvals.get((dn, name), dflt)
+                try:
+                    got = cr[dn]
+                except Exception as e:  # noqa
+                    got = "raised %s" % type(e).__name__
+                if got != want:
+                    topcol.append((name, dn, sid_at.get(dn), want, got))
+    out["topcol_mismatch"] = topcol[:10]
+    # term statistics as the (multi) reader combines them
+    tinfo = {}
+    for fname, tbytes in lex:
+        try:
+            ti = r.term_info(fname, tbytes)
+            tinfo[(fname, tbytes)] = (ti.doc_frequency(), ti.weight(), ti.min_length(), ti.max_length(),
+                                      ti.max_weight(), ti.min_id(), ti.max_id())
+        except Exception as e:  # noqa
+            tinfo[(fname, tbytes)] = "raised %s" % type(e).__name__
+    out["terminfo"] = tinfo
     return out
 
 
@@ -713,6 +806,11 @@ def dump_index(ix, probes=()):
                 hits = sorted(_sid_of(h.fields()) for h in res)
                 pr[name] = {"docs": ids, "hits": hits, "len": len(res),
                             "scores": sorted((_sid_of(h.fields()), h.score) for h in res)}
+                top = {}
+                for k in (1, 2, 3):
+                    rk = s.search(wq, limit=k)
+                    top[k] = [(_sid_of(h.fields()), h.score) for h in rk]
+                pr[name]["top"] = top
             except Exception as e:  # noqa
                 pr[name] = {"error": "%s: %s" % (type(e).__name__, e)}
         out["probes"] = pr
@@ -880,6 +978,9 @@ def run_real(world, cfg, path, probes=(), dump_each=True, dump_at=None):
     st = open_storage(cfg, os.path.join(path, "ix"))
     ix = st.create_index(build_schema(world["fields"]))
     out = []
+    # a long-lived searcher, refreshed after every session (reader recycling): compound segments only,
+    # loose segments opened lazily are the fs family's known finding (C03)
+    held = st.open_index().searcher() if cfg.get("compound", True) else None
     for si, (ops, end) in enumerate(world["sessions"]):
         concrete, results = [], []
         rec = {"concrete": concrete, "results": results, "end": end}
@@ -900,9 +1001,25 @@ def run_real(world, cfg, path, probes=(), dump_each=True, dump_at=None):
                 w.commit(**commit_kwargs(end[1]))
             else:
                 w.cancel()
+        if held is not None:
+            try:
+                held = held.refresh()
+                r = held.reader()
+                rec["refreshed"] = {
+                    "sids": sorted(_sid_of(r.stored_fields(dn)) for dn in r.all_doc_ids()),
+                    "stored": sorted(_sid_of(st_) for st_ in r.all_stored_fields()),
+                    "doc_count": r.doc_count(),
+                    "every": sorted(_sid_of(held.stored_fields(dn)) for dn in held.docs_for_query(to_whoosh_query(["every"]))),
+                    "sidterms": sorted(int(tb[1:]) for f, tb in r.all_terms() if f == "sid"
+                                       and r.postings("sid", tb).is_active())}
+            except Exception as e:  # noqa
+                rec["refreshed"] = {"error": "%s: %s" % (type(e).__name__, e)}
+                held = None
         if dump_each and (dump_at is None or si in dump_at):
             rec["dump"] = dump_index(st.open_index(), probes)
         out.append(rec)
+    if held is not None:
+        held.close()
     if not dump_each:
         out[-1]["dump"] = dump_index(st.open_index(), probes)
     return {"sessions": out, "storage": st}
@@ -985,6 +1102,32 @@ def new_scratch(prefix):
     return base
 
 
+def expected_terminfo(tables, layout, schema_names):
+    """{(field, tbytes): (df, weight, min_len, max_len, max_weight, min_id, max_id)} from the physical
+    documents (layout: keys by doc number, deleted ones included) and the documents' records: the
+    term index of a segment covers deleted documents until they are merged away."""
+    acc = {}
+    dn = 0
+    for cnt, deleted, keys in layout:
+        for k in keys:
+            rec = tables.recs[k] if k is not None else {}
+            for name, fr in rec.items():
+                if name not in schema_names:
+                    continue
+                for tb, w, _ in fr["toks"]:
+                    a = acc.setdefault((name, tb), [0, 0.0, None, None, 0.0, None, None])
+                    a[0] += 1
+                    a[1] += float(w)
+                    ln = fr["len"]
+                    a[2] = ln if a[2] is None else min(a[2], ln)
+                    a[3] = ln if a[3] is None else max(a[3], ln)
+                    a[4] = max(a[4], float(w))
+                    a[5] = dn if a[5] is None else min(a[5], dn)
+                    a[6] = dn if a[6] is None else max(a[6], dn)
+            dn += 1
+    return dict((k, tuple(v)) for k, v in acc.items())
+
+
 def live_key_order(layout):
     """keys of the live documents in doc-number order, from a dump's layout"""
     order = []
@@ -1009,6 +1152,20 @@ def group_violation(world, layout):
     return None
 
 
+def corpus_items(pid):
+    """[("corpus", path)] for every file of corpus/<pid>/ (replayed first on every run)"""
+    d = os.path.join(os.path.dirname(os.path.dirname(os.path.dirname(os.path.abspath(__file__)))), "corpus", pid)
+    if not os.path.isdir(d):
+        return []
+    return [("corpus", os.path.join(d, n)) for n in sorted(os.listdir(d)) if n.endswith(".json")]
+
+
+def load_corpus(path):
+    import json
+    with open(path) as f:
+        return json.load(f)
+
+
 def private_tmp(path):
     """RamStorage.temp_storage() uses tempfile.gettempdir()/<indexname>.tmp, shared by every
     process on the machine: give each worker its own temp dir."""
@@ -1019,6 +1176,87 @@ def private_tmp(path):
 
 # ------------------------------------------------------------------------------------------------
 # writer front-ends and storage back-ends (C18)
+
+
+def gen_mp_failure(rng):
+    """parameters of one `a document kills a sub-writer process` scenario: the bad document is never
+    the first of its batch, so a good document indexed by the same sub-process precedes it; few enough
+    batches that the bounded job queue cannot fill up"""
+    batch = rng.choice([2, 3])
+    ndocs = rng.randint(batch + 1, 3 * batch)
+    cands = [i for i in range(ndocs) if i % batch >= 1]
+    return {"kind": rng.choice(["unknown-field", "bad-number"]), "procs": rng.choice([1, 2, 3]), "batchsize": batch,
+            "multisegment": rng.random() < 0.4, "ndocs": ndocs, "bad": rng.choice(cands),
+            "withblock": rng.random() < 0.5}
+
+
+def run_mp_failure(p, base):
+    """MpWriter gets one document its sub-process cannot index (unknown field name / text for a NUMERIC
+    field).  Records which add_document calls returned normally, how commit ended, what the index
+    holds afterwards and whether it can be written again."""
+    from whoosh import fields, index
+    from whoosh.multiproc import MpWriter
+    path = os.path.join(base, "ix")
+    os.makedirs(path)
+    schema = fields.Schema(id=fields.ID(stored=True), n=fields.NUMERIC(stored=True), txt=fields.TEXT)
+    ix = index.create_in(path, schema)
+    with ix.writer() as w:
+        w.add_document(id=u"old", n=1, txt=u"old doc")
+    out = {"params": p, "accepted": [], "add_errors": [], "good": []}
+    # the dying sub-process prints its traceback: keep it out of the check's output
+    sys.stderr.flush()
+    saved = os.dup(2)
+    devnull = os.open(os.devnull, os.O_WRONLY)
+    os.dup2(devnull, 2)
+    try:
+        w = MpWriter(ix, procs=p["procs"], batchsize=p["batchsize"], multisegment=p["multisegment"])
+        try:
+            if p.get("withblock"):
+                w.start_group()
+                w.end_group()
+            for i in range(p["ndocs"]):
+                kw = dict(id=u"d%d" % i, n=i, txt=u"alfa bravo")
+                if i == p["bad"]:
+                    if p["kind"] == "unknown-field":
+                        kw["nosuch"] = u"x"
+                    else:
+                        kw["n"] = u"notanumber"
+                else:
+                    out["good"].append(kw["id"])
+                try:
+                    w.add_document(**kw)
+                    out["accepted"].append(kw["id"])
+                except Exception as e:  # noqa
+                    out["add_errors"].append([kw["id"], type(e).__name__])
+            try:
+                w.commit()
+                out["commit"] = "ok"
+            except Exception as e:  # noqa
+                out["commit"] = "%s: %s" % (type(e).__name__, str(e)[:120])
+        finally:
+            for t in getattr(w, "tasks", []):
+                try:
+                    if t.is_alive():
+                        t.terminate()
+                        t.join(10)
+                except Exception:  # noqa
+                    pass
+    finally:
+        sys.stderr.flush()
+        os.dup2(saved, 2)
+        os.close(saved)
+        os.close(devnull)
+    ix2 = index.open_dir(path)
+    with ix2.searcher() as s:
+        out["stored"] = sorted(d["id"] for d in s.documents())
+    try:
+        with ix2.writer() as w2:
+            w2.add_document(id=u"after", n=9, txt=u"x")
+        out["relock"] = "ok"
+    except Exception as e:  # noqa
+        out["relock"] = type(e).__name__
+    return out
+
 
 class Watchdog(object):
     """raise TimeoutError in this process after `seconds` (worker processes only)"""
@@ -1090,12 +1328,23 @@ def run_frontend(world, cfg, path, probes=(), dump_at=None, async_decoy=None):
         buffered_async = fe == "async" and w.writer is None
         rec["async_buffered"] = buffered_async
 
+        mode = async_decoy[si % len(async_decoy)] if (fe == "async" and async_decoy) else False
+        released = [False]
+
+        def release_early():
+            # the other writer goes away before commit() is called
+            if buffered_async and mode == "early" and not released[0]:
+                decoy.release()
+                released[0] = True
+
         def finish():
             if buffered_async:
-                time.sleep(0.01)
-                decoy.release()
-                if end[0] == "commit":
-                    w.join(30)
+                if not released[0]:
+                    time.sleep(0.01)
+                    decoy.release()
+                    released[0] = True
+                if end[0] == "commit" and w.ident is not None:
+                    w.join(120)
                     if w.is_alive():
                         raise RuntimeError("AsyncWriter thread did not finish")
             if fe == "mp":
@@ -1114,6 +1363,7 @@ def run_frontend(world, cfg, path, probes=(), dump_at=None, async_decoy=None):
             else:
                 for op in ops:
                     apply_op(w, world, op, concrete, results, w.searcher, delkeys)
+                release_early()
                 if end[0] == "commit":
                     w.commit(**commit_kwargs(end[1]))
                 else:
